@@ -35,6 +35,7 @@ CONSTANTS
   ForeignOps = {}
   MaxRefs = 2
   MaxHeld = 2
+  PoolSize = 16
   Setup = "loop2"
 INIT Init
 NEXT Next
